@@ -298,6 +298,12 @@ def codec_rule(ctx, prog, an, rule):
     for kind in sorted(arms):
         cons = [c for c in arms[kind] if c[0] in ("prim", "take", "datanumber", "unknown-helper")]
         variants = sorted(prod.get(kind, []))
+        if cons and not variants and all(c[0] == "unknown-helper" for c in cons):
+            # feature-off configuration: the helper of the Unknown arm builds no value at all (C17 R17.4), so nothing of
+            # this kind is ever decoded and there is nothing to re-export
+            n += 1
+            ctx.ob(rule, c04.FFT, "codec:%s" % kind, True, "FieldDataType::%s is never decoded in this configuration (its helper returns no value): nothing to pair" % kind)
+            continue
         if not cons or len(variants) != 1:
             ctx.ob(rule, c04.FFT, "codec:%s" % kind, False, "cannot pair decoder and encoder for FieldDataType::%s (consumers %s, variants %s)" % (kind, cons, variants))
             continue
